@@ -10,6 +10,7 @@ import (
 	"sort"
 	"strings"
 	"sync"
+	"sync/atomic"
 	"time"
 )
 
@@ -95,7 +96,11 @@ func (e *Engine) modelTerms() []string {
 func (e *Engine) buildQuery(p *OblPath, withModel bool, uses []string) string {
 	var b strings.Builder
 	var body strings.Builder
+	isCover := p.Goal == "false" && !withModel
 	for _, a := range uses {
+		if isCover && strings.Contains(a, "forall") {
+			continue // reachability covers are decided without the quantified background facts
+		}
 		body.WriteString("(assert " + a + ")\n")
 	}
 	for _, c := range p.PC {
@@ -123,10 +128,21 @@ func (e *Engine) buildQuery(p *OblPath, withModel bool, uses []string) string {
 			mt = "(get-value (" + strings.Join(ts, " ") + "))\n"
 		}
 	}
-	b.WriteString("(set-option :produce-models true)\n(set-logic ALL)\n")
 	e.S.NoAxioms = p.Goal == "false" && !withModel
-	b.WriteString(e.S.Relevant(body.String() + mt))
+	decls := e.S.Relevant(body.String() + mt)
 	e.S.NoAxioms = false
+	// pure bit-vector goals go to the bit-blasting engines
+	logic := "ALL"
+	all := decls + body.String()
+	if e.S.BV && !strings.Contains(all, "forall") && !strings.Contains(all, "exists") && !strings.Contains(all, "Array") &&
+		!strings.Contains(all, "declare-datatypes") && !strings.Contains(all, "String") && !strings.Contains(all, " Int") && !strings.Contains(all, "declare-sort") {
+		logic = "QF_UFBV"
+		if !strings.Contains(all, "declare-fun") || !hasNonConstFun(all) {
+			logic = "QF_BV"
+		}
+	}
+	b.WriteString("(set-option :produce-models true)\n(set-logic " + logic + ")\n")
+	b.WriteString(decls)
 	b.WriteString(body.String())
 	b.WriteString("(check-sat)\n")
 	b.WriteString(mt)
@@ -151,8 +167,13 @@ func solveQuery(q string, timeout time.Duration) SolveResult {
 	if len(q) > 2<<20 {
 		return SolveResult{Status: "error", Output: "tool limit: query larger than 2 MB"}
 	}
-	// fast path: newest z3 alone
-	r := runSolverSimple(0, q, fastTimeout)
+	// fast path: newest z3 alone (quantifier-free bit-vector goals are raced at once: cvc5 is often the quickest there)
+	var r SolveResult
+	if strings.Contains(q[:min(len(q), 120)], "(set-logic QF_") {
+		r = SolveResult{Status: "skipped"}
+	} else {
+		r = runSolverSimple(0, q, fastTimeout)
+	}
 	if r.Status != "sat" && r.Status != "unsat" {
 		rr, _ := Solve(q, timeout, false)
 		rr.Time += r.Time
@@ -193,7 +214,15 @@ func (e *Engine) SolveUnit(unitName string, uses []string) []*OblResult {
 		go func() {
 			defer wg.Done()
 			for j := range ch {
+				if j.obl.Expect != "sat" && atomic.LoadInt32(&j.obl.failed) != 0 {
+					// another path of this obligation already failed: no need to burn solver time
+					j.res = SolveResult{Status: "unsat", Solver: "skipped"}
+					continue
+				}
 				j.res = solveQuery(j.query, quickTimeout)
+				if j.obl.Expect != "sat" && j.res.Status != "unsat" {
+					atomic.StoreInt32(&j.obl.failed, 1)
+				}
 			}
 		}()
 	}
